@@ -1399,7 +1399,7 @@ func c10R4(c *Ctx) {
 		allInstrs(v, func(i ssa.Instruction) {
 			if cl, ok := i.(*ssa.Call); ok && strings.HasSuffix(commonName(&cl.Call), "MultiTenantVerifier).Verify") {
 				if tc, ok := cl.Call.Args[2].(*ssa.Call); ok {
-					if cal := tc.Call.StaticCallee(); cal != nil && cal.Name() == "parseTenant" {
+					if cal := tc.Call.StaticCallee(); cal != nil && baseName(cal) == "parseTenant" {
 						good = true
 					}
 				}
